@@ -44,16 +44,31 @@ def rule_closure(ctx: Ctx) -> RuleResult:
     p = ctx.p
     rr = RuleResult("CLOS", "C14.2", "the weak-reference callback and the handler tuple hold no strong reference to the sender or the weak arguments", floor=4)
     conn = p.func(f"{SIG}.connect")
-    cb = p.local_def(conn, "weakref_callback")
-    if cb is None:
-        # any nested function handed to _prepare_user_args
-        nested = [g for g in p.functions.values() if g.parent is conn and not g.is_lambda]
-        if len(nested) != 1:
-            raise AnalysisError("Signals.connect: the weak-reference callback (nested function) was not found")
-        cb = nested[0]
     params = set(conn.params)
     sender = conn.params[1] if len(conn.params) > 1 else "obj"
     strong = {sender, "weak_args", "user_args", "callback", "user_arg"} & params
+    # the callback is what connect() hands to _prepare_user_args as third argument (it ends up as the callback of
+    # the weakref.ref objects stored in the sender's own handler list)
+    pua = [c for c in calls_in(conn, "_prepare_user_args")]
+    if not pua or len(pua[0].args) < 3:
+        raise AnalysisError("Signals.connect: the call _prepare_user_args(weak_args, user_args, <callback>) was not found")
+    cb_expr = pua[0].args[2]
+    cb = None
+    if isinstance(cb_expr, ast.Name):
+        cb = p.local_def(conn, cb_expr.id)
+    if cb is None:
+        # not a nested function: a partial / bound method / lambda built in connect() - whatever expression defines it
+        # must not mention the sender (or the other strongly held arguments): it would be stored, through the
+        # weak-reference objects, in the sender's own handler list
+        exprs = [cb_expr]
+        if isinstance(cb_expr, ast.Name):
+            exprs = [n.value for n in conn.own_nodes() if isinstance(n, ast.Assign) and any(isinstance(t, ast.Name) and t.id == cb_expr.id for t in n.targets)]
+        names = {x.id for e in exprs for x in ast.walk(e) if isinstance(x, ast.Name) and isinstance(x.ctx, ast.Load)}
+        captured = sorted(names & strong)
+        rr.inst("weakref_callback free variables", True, {"callback_expression": [norm(e, 80) for e in exprs], "forbidden": sorted(strong)})
+        if captured or not exprs:
+            rr.add(finding("CLOS", conn, exprs[0] if exprs else conn.node, f"the weak-reference callback `{norm(exprs[0], 70) if exprs else '?'}` holds {captured} strongly; it is stored (as the callback of the weakref objects) in the sender's own handler list: sender -> handlers -> weakref -> callback -> sender is a cycle, the sender is no longer freed by reference counting when its last user drops it", construct=f"strong capture of {', '.join(captured)}"))
+        return rr
     local = set(cb.all_params) | {n.id for n in cb.own_nodes() if isinstance(n, ast.Name) and isinstance(n.ctx, ast.Store)}
     free = {n.id for n in ast.walk(cb.node) if isinstance(n, ast.Name) and isinstance(n.ctx, ast.Load)} - local
     captured = sorted(free & strong)
@@ -494,6 +509,7 @@ from ..mutants import Mut  # noqa: E402
 
 _F = "urwid/signals.py"
 MUTANTS = [
+    Mut("weak-arg-callback-partial-holds-sender", "urwid/signals.py", "Signals.connect", "        user_args = self._prepare_user_args(weak_args, user_args, weakref_callback)", "        import functools\n\n        user_args = self._prepare_user_args(weak_args, user_args, functools.partial(self.disconnect_by_key, obj, name, key))", "CLOS|signals.Signals.connect|strong capture of obj"),
     Mut("meta-signals-extends-class-body-list", "urwid/signals.py", "MetaSignals.__init__", "signals = list(d.get(\"signals\", []))", "signals = d.get(\"signals\", [])", "FRESH|signals.MetaSignals.__init__"),
     Mut("disconnect-removes-every-match", "urwid/signals.py", "Signals.disconnect", "                return self.disconnect_by_key(obj, name, h[0])", "                self.disconnect_by_key(obj, name, h[0])", "PASS|signals.Signals.disconnect"),
     Mut("twin-disconnect-break-form", "urwid/signals.py", "Signals.disconnect", "                return self.disconnect_by_key(obj, name, h[0])", "                self.disconnect_by_key(obj, name, h[0])\n                break", twin=True),
